@@ -147,6 +147,11 @@ class ProbeFailure(RuntimeError):
     """Raised by a probe told (via its control file) to fail on a setting."""
 
 
+# the exception types a failing user function may raise (some are special to iteration protocols)
+FAIL_EXCS = {"ProbeFailure": ProbeFailure, "StopIteration": StopIteration, "KeyError": KeyError,
+             "ZeroDivisionError": ZeroDivisionError, "StopAsyncIteration": StopAsyncIteration}
+
+
 def probe_call(kwargs, kind, logfile=None, loglist=None, ctl=None, hidden=None):
     c = _read_ctl(ctl)
     key = canon(kwargs)
@@ -165,7 +170,8 @@ def probe_call(kwargs, kind, logfile=None, loglist=None, ctl=None, hidden=None):
         h = enc(kwargs, "jit", c.get("jitter_seed", 0)) % (int(j) + 1)
         time.sleep(h / 1e6)
     if key in c.get("fail", ()):
-        raise ProbeFailure("probe told to fail on " + key)
+        exc = FAIL_EXCS.get(c.get("fail_exc"), ProbeFailure)
+        raise exc("probe told to fail on " + key)
     if key in c.get("unpicklable", ()):
         return (lambda: None)          # a result that cannot be written to disk
     return make(kind, kwargs, hidden)
